@@ -22,6 +22,7 @@
        call (e.g. nothing else runs) that is the number of members (programs of
        Has / Add / Remove / Len on one set; uses SyncMap/RangeConc.v). *)
 From Typ Require Import SyncMap.Model SyncMap.Inv SyncMap.SetAtomic Lib.Lin SyncMap.Linearizable SyncMap.RangeConc.
+From Typ Require SyncMap.SeqProofs.
 Local Open Scope Z_scope.
 
 (* programs of sync2.Set: Has / Add / Remove and Range with any callback
@@ -730,4 +731,41 @@ Proof.
     intros Hin. apply H1. apply in_map_iff. exists (k, v). auto. }
   change (size m) with (length (map_to_list m)). apply Permutation_length. apply Coq.Sorting.Permutation.NoDup_Permutation; [exact Hnd'|apply NoDup_ListNoDup, NoDup_map_to_list|].
   intros [k v]. rewrite Hiff, <- elem_of_list_In, elem_of_map_to_list. reflexivity.
+Qed.
+
+(* [range_complete] with the escape in terms of the count: the call's own
+   callback stops after n entries, and it was called at least once and at
+   least n times *)
+Theorem range_complete_cnt z progs sched t th i out cnt :
+  Forall (Forall rfrag) progs ->
+  let c := run_schedule (init_config_z [z] progs) sched in
+  nth_error (c_threads c) t = Some th -> nth_error (t_results th) i = Some (RRange out cnt) ->
+  cnt = Z.of_nat (length out) /\
+  forall k v,
+    (forall x, In x (steps_from (init_config_z [z] progs) sched) -> in_call_at x t i -> abs_lookup (st0 x.1) k = Some v) ->
+    In (k, v) out \/
+    exists p n, nth_error progs t = Some p /\ nth_error p i = Some (CRange 0 (CbStop (Some n))) /\ (0 < cnt)%Z /\ (Z.of_nat n <= cnt)%Z.
+Proof.
+  intros Hfr c Hth Hn.
+  assert (HL : LInv c).
+  { apply (LInv_run sched [init_config_z [z] progs]); [apply Inv_init_z|apply Inv2_init_z|apply RInv_init, Hfr|apply LInv_init]. }
+  pose proof (li_res c HL t th i out cnt Hth Hn) as Ec. split; [exact Ec|].
+  intros k v S. destruct (range_complete z progs sched t th i out cnt Hfr Hth Hn k v S) as [Hin|(p & n & Hp & Hi & Hne & Hle)]; [auto|].
+  right. exists p, n. split; [exact Hp|]. split; [exact Hi|]. split; [|exact Hle]. destruct out; [contradiction|cbn in Ec; lia].
+Qed.
+
+(* ---- the stability hypothesis of [len_constant] can be checked by computation ---- *)
+Lemma abs_map_lookup_any s k : abs_map s !! k = abs_lookup s k.
+Proof.
+  unfold abs_map. rewrite SeqProofs.list_to_map_omap. destruct (decide (k ∈ all_keys s)) as [|N]; [reflexivity|].
+  destruct (abs_lookup s k) as [v|] eqn:A; [|reflexivity]. exfalso. apply N. eapply SeqProofs.abs_lookup_all_keys; eauto.
+Qed.
+
+Lemma stable_map_check (ptr : list (config * nat)) t i (m : gmap Z Z) :
+  forallb (fun x => implb (in_call_atb x t i) (bool_decide (map_to_list (abs_map (st0 x.1)) = map_to_list m))) ptr = true ->
+  forall x, In x ptr -> in_call_at x t i -> forall k, abs_lookup (st0 x.1) k = m !! k.
+Proof.
+  intros H x Hx Hat k. rewrite forallb_forall in H. specialize (H x Hx). rewrite (in_call_at_b x t i Hat) in H.
+  cbn in H. apply bool_decide_eq_true in H. assert (E : abs_map (st0 x.1) = m) by (apply map_to_list_inj; rewrite H; reflexivity).
+  rewrite <- E. symmetry. apply abs_map_lookup_any.
 Qed.
